@@ -28,6 +28,9 @@ DEFOBJ = z3.Function("DEFOBJ", IntS, PyObj)       # the materialised default of 
 F_ckind = z3.Function("F_ckind", IntS, StrS)      # class kind of the field's element type: datetime timedelta message enum other
 ENTRY_KEY = z3.Function("ENTRY_KEY", PyObj, PyObj)
 ENTRY_VAL = z3.Function("ENTRY_VAL", PyObj, PyObj)
+GROUP_MEMBERS = z3.Function("GROUP_MEMBERS", StrS, z3.SeqSort(IntS))   # field indices of a oneof group (some order)
+POS_IN_GROUP = z3.Function("POS_IN_GROUP", IntS, IntS)
+MSG_HASFIELDS = z3.Function("MSG_HASFIELDS", PyObj, BoolS)
 IDX_OF_NUMBER = z3.Function("IDX_OF_NUMBER", IntS, IntS)   # field index for a wire number, -1 if unknown
 NF = z3.Int("NF")
 MSG_SOW = z3.Function("MSG_SOW", PyObj, BoolS)    # value._serialized_on_wire of a nested message value
@@ -57,7 +60,7 @@ class MsgPlugin:
                   "VAL", "RAWV", "SEL", "INGROUP", "READABLE", "WIREUPTO", "WIRE", "EMIT_AT", "WF", "TY", "GCV",
                   "HEAP_LIST", "HEAP_DK", "HEAP_DV", "CN", "XS", "KS", "VS", "SOWV", "FNAME_IDX", "RAWARR", "GCARR",
                   "TY_AT", "WF_AT", "F_ckind", "IDXN", "SELECT", "DEFOBJ", "UNKF", "SOWF", "GROUP_RESET", "DICTSET_K",
-                  "DICTSET_V", "ENTRY_KEY", "ENTRY_VAL", "F_name", "VALOF", "SHAPE", "STRUCT"}
+                  "DICTSET_V", "ENTRY_KEY", "ENTRY_VAL", "F_name", "VALOF", "SHAPE", "STRUCT", "MEMBER", "NMEMBERS", "GROUPS_WF", "INITIALISED", "GCLOCAL", "NAMES_WF", "ALLSENT", "LASTSET", "ISSETV", "POS_OF"}
 
     SPEC_CONSTS = {"NF"}
 
@@ -83,7 +86,7 @@ class MsgPlugin:
             st.assume(z3.Or(PyObj.is_PNone(comps["wraps"].t), PyObj.is_PStr(comps["wraps"].t)))
             st.assume(z3.Or(PyObj.is_PNone(comps["group"].t), PyObj.is_PStr(comps["group"].t)))
             return SV("rec", comps, "FieldMetadata")
-        if model != "msg":
+        if model not in ("msg", "rawmsg"):
             return None
         key = p
         st.heap[(key, "raw")] = SV("arr", z3.Const(f"{p}.raw", RAW_S))
@@ -100,6 +103,10 @@ class MsgPlugin:
         ex.inputs[f"{p}.unk"] = st.heap[(key, "_unknown_fields")].t
         ex.inputs["NF"] = NF
         st.assume(NF >= 0)
+        if model == "rawmsg":
+            st.heap[(key, "_init")] = sv_bool(z3.Bool(f"{p}.initialised"))
+            ex.inputs[f"{p}.initialised"] = st.heap[(key, "_init")].t
+            return SV("ref", key, "rawmsg")
         return SV("ref", key, "msg")
 
     # ---------------------------------------------------------------- the per-message encoding
@@ -206,6 +213,27 @@ class MsgPlugin:
             st.assume(new[i] == v)
         return new
 
+    def init_fns(self):
+        """what __post_init__ must compute, as recursive functions over the field table:
+        ALLSENT(raw, k): the first k fields hold only sentinels (PLACEHOLDER, or None for an optional field);
+        LASTSET(raw, g, k): -2 if none of the first k fields is in group g, else the last of them holding a
+        non-sentinel value, else -1 (None)."""
+        if getattr(self, "_init_fns", None) is None:
+            fa = z3.RecFunction("ALLSENT", RAW_S, IntS, BoolS)
+            fl = z3.RecFunction("LASTSET", RAW_S, StrS, IntS, IntS)
+            raw = z3.Const("raw!i", RAW_S)
+            g = z3.String("g!i")
+            k = z3.Int("k!i")
+            j = k - 1
+            unset = z3.Or(raw[j] == PyObj.PPlaceholder, z3.And(F_optional(j), raw[j] == PyObj.PNone))
+            z3.RecAddDefinition(fa, [raw, k], z3.If(k <= 0, True, z3.And(fa(raw, k - 1), unset)))
+            prev = fl(raw, g, k - 1)
+            z3.RecAddDefinition(fl, [raw, g, k], z3.If(k <= 0, z3.IntVal(-2),
+                                 z3.If(z3.And(F_group(j) == g, g != z3.StringVal("")),
+                                       z3.If(z3.Not(unset), j, z3.If(prev == -2, z3.IntVal(-1), prev)), prev)))
+            self._init_fns = (fa, fl)
+        return self._init_fns
+
     def model_setattr(self, ex, st, selfv, i, v):
         """contract of Message.__setattr__ for a field (DESIGN A.5): sow' = True; if the field is a oneof member it
         becomes the selected one and every sibling is reset to PLACEHOLDER; raw'[i] = v; nothing else changes."""
@@ -247,6 +275,37 @@ class MsgPlugin:
             return SV("obj", DEFOBJ(ex.as_int(pos[0], st)))
         if name == "VALOF":
             return SV("obj", val_of(pos[0].t, ex.as_int(pos[1], st)))
+        if name in ("ALLSENT", "LASTSET"):
+            fa, fl = self.init_fns()
+            if name == "ALLSENT":
+                return sv_bool(fa(raw, ex.as_int(pos[0], st)))
+            return sv_int(fl(raw, pos[0].t, ex.as_int(pos[1], st)))
+        if name == "ISSETV":
+            j = ex.as_int(pos[0], st)
+            return sv_bool(z3.Not(z3.Or(raw[j] == PyObj.PPlaceholder, z3.And(F_optional(j), raw[j] == PyObj.PNone))))
+        if name == "POS_OF":
+            return sv_int(POS_IN_GROUP(ex.as_int(pos[0], st)))
+        if name == "MEMBER":
+            return sv_int(GROUP_MEMBERS(pos[0].t)[ex.as_int(pos[1], st)])
+        if name == "NMEMBERS":
+            return sv_int(z3.Length(GROUP_MEMBERS(pos[0].t)))
+        if name == "INITIALISED":
+            return st.heap[(key, "_init")]
+        if name == "GROUPS_WF":
+            # the member list of every group enumerates exactly the fields declared with that group, once each
+            j, q = z3.Int("j!gw"), z3.Int("q!gw")
+            g = z3.String("g!gw")
+            mem = GROUP_MEMBERS(g)
+            a1 = z3.ForAll([g, q], z3.Implies(z3.And(0 <= q, q < z3.Length(mem)),
+                                             z3.And(0 <= mem[q], mem[q] < NF, F_group(mem[q]) == g, POS_IN_GROUP(mem[q]) == q)))
+            mj = GROUP_MEMBERS(F_group(j))
+            a2 = z3.ForAll([j], z3.Implies(z3.And(0 <= j, j < NF, F_group(j) != z3.StringVal("")),
+                                          z3.And(0 <= POS_IN_GROUP(j), POS_IN_GROUP(j) < z3.Length(mj), mj[POS_IN_GROUP(j)] == j)))
+            return sv_bool(z3.And(a1, a2))
+        if name == "NAMES_WF":
+            j = z3.Int("j!nw")
+            bad = [z3.StringVal(x) for x in ("__class__", "_betterproto", "_group_current", "_serialized_on_wire", "_unknown_fields")]
+            return sv_bool(z3.ForAll([j], z3.Implies(z3.And(0 <= j, j < NF), z3.And(*[F_name(j) != b for b in bad]))))
         if name == "STRUCT":
             # container-kind consistency: a repeated field holds a list, a map field a dict, others neither
             a = z3.Int("a!st")
@@ -329,6 +388,27 @@ class MsgPlugin:
 
     # ---------------------------------------------------------------- attribute protocol
     def getattr_hook(self, ex, st, v, attr):
+        if v.extra == "rawmsg":
+            # plain attribute lookup on the instance (non-field names), as Message.__getattribute__ does for them
+            if attr == "_betterproto":
+                return [(st, SV("bp", v.t))]
+            if attr == "__dict__":
+                return [(st, SV("selfdict", v.t))]
+            if attr == "_group_current":
+                init = st.heap[(v.t, "_init")].t
+                out = []
+                s_r = st.clone()
+                s_r.assume(z3.Not(init))
+                if ex.feasible(s_r):
+                    out.append((s_r, Raised(SV("exc", "AttributeError"))))
+                s_n = st.clone()
+                s_n.assume(init)
+                if ex.feasible(s_n):
+                    out.append((s_n, SV("gcdict", v.t)))
+                return out
+            if attr in ("_serialized_on_wire", "_unknown_fields"):
+                return None
+            return [(st, SV("func", ("method", v, attr)))]
         if v.extra != "msg":
             return None
         if attr == "_betterproto":
@@ -344,6 +424,10 @@ class MsgPlugin:
         return [(st, SV("func", ("method", v, attr)))]
 
     def attr_hook(self, ex, st, v, attr):
+        if v.kind == "objbp" and attr == "meta_by_field_name":
+            return [(st, sv_bool(MSG_HASFIELDS(v.t)))]
+        if v.kind in ("super", "selfdict", "gclocal"):
+            return [(st, SV("func", ("method", v, attr)))]
         if v.kind == "func" and v.t[0] == "fieldcls":
             return [(st, SV("func", ("method", v, attr)))]
         if v.kind in ("fieldmsg", "wkmsg", "wkparsed") and not (v.kind == "wkparsed" and attr == "value"):
@@ -368,6 +452,8 @@ class MsgPlugin:
     def value_attr_hook(self, ex, st, v, attr):
         if v.kind == "obj" and attr == "_serialized_on_wire":
             return [(st, sv_bool(MSG_SOW(v.t)))]
+        if v.kind == "obj" and attr == "_betterproto":
+            return [(st, SV("objbp", v.t))]
         if v.kind == "obj" and attr == "key":
             return [(st, SV("obj", ENTRY_KEY(v.t)))]
         if v.kind == "obj" and attr == "value":
@@ -375,6 +461,11 @@ class MsgPlugin:
         return None
 
     def setattr_other(self, ex, st, recv, attr, v):
+        if recv.kind == "obj" and attr == "_serialized_on_wire" and ex.qualname.endswith("Message.__setattr__"):
+            # marking an assigned field-less message as present: state of the NESTED object, recorded as ghost only
+            st.heap[("$L", "nested_marked")] = recv
+            ex.assumption("A-NESTED-MARK")
+            return True
         if recv.kind == "obj" and attr == "_serialized_on_wire":
             # only ever set to True on a freshly parsed nested message, which already reports it
             ex.oblige(st, f"nested-presence-flag@{ex.cur_line}", z3.And(ex.truth(v), MSG_SOW(recv.t)), "safety")
@@ -404,6 +495,29 @@ class MsgPlugin:
         return [(st2, SV("obj", PyObj.PList(r)))]
 
     def set_item(self, ex, st, recv, key, v):
+        from .sym import concrete_str
+        if recv.kind == "selfdict":
+            k = concrete_str(key.t) if key.kind == "str" else None
+            if k in ("_serialized_on_wire", "_unknown_fields"):
+                st.heap[(recv.t, k)] = v
+                return True
+            if k == "_group_current" and v.kind == "gclocal":
+                st.heap[(recv.t, "gc")] = SV("arr", v.t)
+                st.heap[(recv.t, "_init")] = sv_bool(True)
+                return True
+            raise Unsupported("self.__dict__[...] = ... for another key")
+        if recv.kind == "gcdict" and v.kind == "fname":
+            g = ex.coerce(key, "str", st, "group name")
+            raw, gc, hl, hdk, hdv = self.cells(st, recv.t)
+            st.heap[(recv.t, "gc")] = SV("arr", z3.Store(gc, g.t, v.t))
+            return True
+        if recv.kind == "gclocal" and v.kind == "fname":
+            g = ex.coerce(key, "str", st, "group name")
+            for k_, v_ in list(st.env.items()):
+                if v_ is recv:
+                    st.env[k_] = SV("gclocal", z3.Store(recv.t, g.t, v.t))
+                    return True
+            raise Unsupported("item assignment on an untracked dict")
         if recv.kind != "obj":
             return None
         raw, gc, hl, hdk, hdv = self.cells(st)
@@ -421,6 +535,14 @@ class MsgPlugin:
         return True
 
     def identical_hook(self, ex, a, b, st):
+        if a.kind == "obj" and b.kind == "obj":
+            def singletons(t):
+                if z3.is_app(t) and t.decl().name() in ("PPlaceholder", "PNone"):
+                    return True
+                return z3.is_app(t) and t.decl().kind() == z3.Z3_OP_ITE and singletons(t.arg(1)) and singletons(t.arg(2))
+            for x, y in ((a, b), (b, a)):
+                if singletons(y.t):
+                    return x.t == y.t
         for x, y in ((a, b), (b, a)):
             if x.kind == "defgen" and y.kind == "func" and y.t == ("builtin", "list"):
                 return F_dkind(x.t) == z3.StringVal("list")
@@ -434,6 +556,8 @@ class MsgPlugin:
         return None
 
     def call_class(self, ex, tag, pos, kw, st, node):
+        if tag[0] == "class" and tag[1].endswith(".Placeholder") and not pos and not kw:
+            return [(st, SV("obj", PyObj.PPlaceholder))]
         if tag[0] == "class" and tag[1].endswith("._Timestamp") and not pos and not kw:
             return [(st, SV("wkmsg", ("ts", None)))]
         if tag[0] == "class" and tag[1].endswith("._Duration") and not pos and not kw:
@@ -460,6 +584,16 @@ class MsgPlugin:
             if c not in (0, 1):
                 raise Unsupported("map_types index")
             return [(st, sv_str((F_mapk if c == 0 else F_mapv)(seq.t)))]
+        if seq.kind == "bpattr" and seq.t[1] == "oneof_group_by_field" and idx.kind == "fname":
+            ex.oblige(st, f"key-present@{ex.cur_line}", F_group(idx.t) != z3.StringVal(""), "safety")
+            return [(st, sv_str(F_group(idx.t)))]
+        if seq.kind == "bpattr" and seq.t[1] == "oneof_field_by_group":
+            g = ex.coerce(idx, "str", st, "group name")
+            return [(st, SV("groupfields", g.t))]
+        if seq.kind == "gcdict":
+            g = ex.coerce(idx, "str", st, "group name")
+            raw, gc, hl, hdk, hdv = self.cells(st, seq.t)
+            return [(st, SV("fname", gc[g.t]))]
         if seq.kind == "bpattr" and seq.t[1] == "default_gen" and idx.kind == "fname":
             ex.oblige(st, f"key-present@{ex.cur_line}", z3.And(idx.t >= 0, idx.t < NF), "safety")
             return [(st, SV("defgen", idx.t))]
@@ -474,6 +608,9 @@ class MsgPlugin:
     def iter_hook(self, ex, st, itv):
         if itv.kind == "iter_fields":
             return NF, (lambda k: sv_tuple([SV("fname", k), self.metarec(k)]))
+        if itv.kind == "groupfields":
+            mem = GROUP_MEMBERS(itv.t)
+            return z3.Length(mem), (lambda k: SV("rec", {"name": SV("fname", mem[k])}, "Field"))
         if itv.kind == "iter_fieldnames":
             return NF, (lambda k: SV("fname", k))
         raw, gc, hl, hdk, hdv = self.cells(st)
@@ -490,6 +627,51 @@ class MsgPlugin:
     def call_method(self, ex, recv, name, pos, kw, st, node):
         if recv.kind == "bpattr" and recv.t[1] == "meta_by_field_name" and name == "items":
             return [(st, SV("iter_fields", recv.t[0]))]
+        if recv.kind == "super":
+            key = recv.t
+            raw, gc, hl, hdk, hdv = self.cells(st, key)
+            from .sym import concrete_str
+            if name == "__getattribute__":
+                nm = pos[0]
+                if nm.kind == "fname":
+                    ex.oblige(st, f"field-index@{ex.cur_line}", z3.And(nm.t >= 0, nm.t < NF), "safety")
+                    return [(st, SV("obj", raw[nm.t]))]
+                if nm.kind == "str" and concrete_str(nm.t) == "_group_current":
+                    init = st.heap[(key, "_init")].t
+                    out = []
+                    s_r = st.clone()
+                    s_r.assume(z3.Not(init))
+                    if ex.feasible(s_r):
+                        out.append((s_r, Raised(SV("exc", "AttributeError"))))
+                    s_n = st.clone()
+                    s_n.assume(init)
+                    if ex.feasible(s_n):
+                        out.append((s_n, SV("gcdict", key)))
+                    return out
+                raise Unsupported("super().__getattribute__ of another name")
+            if name == "__setattr__":
+                nm, v = pos[0], pos[1]
+                if nm.kind == "fname":
+                    st2 = st.clone()
+                    st2.heap[(key, "raw")] = SV("arr", z3.Store(raw, nm.t, to_obj(v)))
+                    return [(st2, NONE)]
+                raise Unsupported("super().__setattr__ of a non-field name")
+        if recv.kind == "gclocal" and name == "setdefault":
+            g = ex.coerce(pos[0], "str", st, "group name").t
+            arr = recv.t
+            new = z3.If(arr[g] == -2, z3.Store(arr, g, z3.IntVal(-1)), arr)
+            # rebinding: the local variable holding this dict is updated in place
+            for k_, v_ in list(st.env.items()):
+                if v_ is recv:
+                    st2 = st.clone()
+                    st2.env[k_] = SV("gclocal", new)
+                    return [(st2, NONE)]
+            raise Unsupported("setdefault on an untracked dict")
+        if recv.kind == "bpattr" and recv.t[1] == "oneof_group_by_field" and name == "get":
+            nm = pos[0]
+            if nm.kind != "fname":
+                raise Unsupported("oneof_group_by_field.get of a non-field name")
+            return [(st, SV("obj", group_obj(nm.t)))]
         if recv.kind == "bpattr" and recv.t[1] == "field_name_by_number" and name == "get":
             n = ex.as_int(pos[0], st)
             return [(st, SV("fname", IDX_OF_NUMBER(n)))]
@@ -551,6 +733,13 @@ class MsgPlugin:
         if recv.kind == "obj" and name == "items" and not pos:
             ex.oblige(st, f"type[.items() receiver is a dict]@{ex.cur_line}", PyObj.is_PDict(recv.t), "safety")
             return [(st, SV("iter_dictitems", recv.t))]
+        if recv.kind == "ref" and recv.extra == "rawmsg":
+            if name == "_get_field_default":
+                fn = pos[0] if pos else kw["field_name"]
+                return [(st, SV("obj", DEFOBJ(fn.t), ("defaultof", fn.t)))]
+            plain = name[len("_Message"):] if name.startswith("_Message__") else name
+            q = f"betterproto.Message.{plain}"
+            return list(ex.call_repo(q, pos, kw, st, node, recv=recv))
         if recv.kind == "ref" and recv.extra == "msg":
             if name == "_get_field_default":
                 fn = pos[0] if pos else kw["field_name"]
@@ -564,6 +753,16 @@ class MsgPlugin:
     def call_builtin(self, ex, name, pos, kw, st, node):
         if name == "getattr" and len(pos) == 2 and pos[0].kind == "ref" and pos[0].extra == "msg" and pos[1].kind == "fname":
             return self.model_getattr(ex, st, pos[0], pos[1].t)
+        if name == "super" and not pos and "self" in st.env:
+            return [(st, SV("super", st.env["self"].t))]
+        if name == "hasattr" and len(pos) == 2 and pos[0].kind == "ref" and pos[0].extra == "rawmsg":
+            nm = pos[1]
+            from .sym import concrete_str
+            if nm.kind == "str" and concrete_str(nm.t) == "_group_current":
+                return [(st, sv_bool(st.heap[(pos[0].t, "_init")].t))]
+            raise Unsupported("hasattr(self, ...) for another name")
+        if name == "hasattr" and len(pos) == 2 and pos[0].kind == "obj":
+            return [(st, sv_bool(PyObj.is_PMsg(pos[0].t)))]      # hasattr(value, "_betterproto"): every Message has it
         if name == "setattr" and len(pos) == 3 and pos[0].kind == "ref" and pos[0].extra == "msg" and pos[1].kind == "fname":
             return [(self.model_setattr(ex, st, pos[0], pos[1].t, to_obj(pos[2])), NONE)]
         if name == "len" and pos and pos[0].kind == "ref" and pos[0].extra == "msg":
@@ -616,6 +815,22 @@ class MsgPlugin:
             r = f.t == -1
             return z3.Not(r) if isinstance(op, ast.IsNot) else r
         return None
+
+    def contains_hook(self, ex, a, b, st):
+        if b.kind == "bpattr" and b.t[1] == "oneof_group_by_field" and a.kind == "fname":
+            return F_group(a.t) != z3.StringVal("")
+        return None
+
+    def equal_hook(self, ex, a, b, st):
+        for x, y in ((a, b), (b, a)):
+            if x.kind == "fname" and y.kind == "str":
+                return F_name(x.t) == y.t
+        return None
+
+    def dict_literal(self, ex, st):
+        if not ex.qualname.endswith("__post_init__"):
+            return None
+        return [(st, SV("gclocal", z3.K(StrS, z3.IntVal(-2))))]
 
     def havoc_hook(self, ex, st, refs):
         return None
